@@ -44,6 +44,13 @@ def decade(lo=-6, hi=6):
 def subproblems(draw, solvers=SOLVERS):
     solver = draw(st.sampled_from(solvers))
     n = draw(st.integers(1, 6))
+    # half of the cases have coherent scales (radius, bounds, right-hand sides and gradient all of
+    # order one), so that the trust-region boundary is reached with bounds and linear constraints
+    # nearby and the boundary-improvement rotations are restricted by them; the other half sweeps
+    # every magnitude independently over 12 decades
+    coherent = draw(st.booleans())
+    if coherent:
+        return draw(coherent_subproblem(solver, n))
     # 12 decades (1e-6..1e6), occasionally three more at the small end (gradients down to 1e-10)
     mg = draw(decade()) * draw(st.sampled_from([1.0, 1.0, 1.0, 1.0, 1e-3]))
     g = [draw(small()) * mg for _ in range(n)]
@@ -86,6 +93,38 @@ def subproblems(draw, solvers=SOLVERS):
         npt = draw(st.integers(1, 5))
         sp["xpt"] = [[draw(st.sampled_from([0.0, 1.0, -1.0, 0.5, -2.0])) * delta * draw(st.sampled_from([1.0, 0.1, 3.0]))
                       for _ in range(npt)] for _ in range(n)]
+    return enc(sp)
+
+
+@st.composite
+def coherent_subproblem(draw, solver, n):
+    v = st.sampled_from([-2.0, -1.0, -0.5, 0.0, 0.5, 1.0, 2.0, 3.0])
+    g = [draw(v) for _ in range(n)]
+    r = draw(st.integers(0, n))
+    B = [[draw(st.sampled_from([-1.0, 0.0, 1.0, 2.0])) for _ in range(r)] for _ in range(n)]
+    D = [draw(st.sampled_from([-1.0, 1.0, 0.25, 3.0, -0.5])) for _ in range(r)]
+    bd = st.sampled_from([0.0, 0.25, 0.5, 0.75, 1.0, 2.0, math.inf])
+    xl = [-draw(bd) for _ in range(n)]
+    xu = [draw(bd) for _ in range(n)]
+    sp = {"solver": solver, "n": n, "g": g, "B": B, "D": D, "mh": draw(st.sampled_from([0.0, 0.5, 1.0, 2.0])),
+          "xl": xl, "xu": xu, "delta": draw(st.sampled_from([0.5, 1.0, 1.0, 2.0])), "improve_tcg": draw(st.integers(0, 3)) > 0}
+    if solver in ("constrained", "normal"):
+        mub = draw(st.integers(0, 4))
+        aub = [[draw(st.sampled_from([-2.0, -1.0, 0.0, 1.0, 1.0, 0.5])) for _ in range(n)] for _ in range(mub)]
+        if solver == "constrained":
+            bub = [draw(st.sampled_from([0.0, 0.125, 0.25, 0.5, 0.75, 1.0])) for _ in range(mub)]
+        else:
+            bub = [draw(st.sampled_from([0.0, 0.25, 0.5, -0.25, -0.5, -1.0, 1.0])) for _ in range(mub)]
+        meq = draw(st.integers(0, min(2, max(n - 1, 0))))
+        aeq = [[draw(st.sampled_from([-1.0, 0.0, 1.0, 2.0])) for _ in range(n)] for _ in range(meq)]
+        sp.update(aub=aub, bub=bub, aeq=aeq)
+        if solver == "normal":
+            sp["beq"] = [draw(st.sampled_from([0.0, 0.5, -0.5, 1.0])) for _ in range(meq)]
+    if solver in ("cauchy", "spider"):
+        sp["const"] = draw(st.sampled_from([0.0, 0.0, 1.0, -1.0, 0.25]))
+    if solver == "spider":
+        npt = draw(st.integers(1, 5))
+        sp["xpt"] = [[draw(st.sampled_from([0.0, 1.0, -1.0, 0.5, -2.0, 0.25])) for _ in range(npt)] for _ in range(n)]
     return enc(sp)
 
 
